@@ -15,9 +15,7 @@ import (
 	"math/big"
 	"os"
 	"os/exec"
-	"path/filepath"
 	"runtime/debug"
-	"runtime/pprof"
 	"sort"
 	"strings"
 	"syscall"
@@ -48,8 +46,7 @@ var (
 	plainX = common.HexToAddress("0xc11c11c11c11c11c11c11c11c11c11c11c11c101") // contract under test
 	minerX = common.HexToAddress("0x56b1fc865ad0c87f46f804145a861b38fcbafb99") // account of a genesis validator (STAKE family)
 
-	one18 = new(big.Int).Exp(big.NewInt(10), big.NewInt(18), nil)
-	two   = big.NewInt(2)
+	one18  = new(big.Int).Exp(big.NewInt(10), big.NewInt(18), nil)
 	max256 = new(big.Int).Sub(new(big.Int).Lsh(big.NewInt(1), 256), big.NewInt(1))
 )
 
@@ -412,17 +409,6 @@ func nameOf(op vm.OpCode) string {
 		return n
 	}
 	return op.String()
-}
-
-func dbg(format string, a ...interface{}) {
-	if os.Getenv("C11_DEBUG") == "" {
-		return
-	}
-	f, err := os.OpenFile("/tmp/c11-debug.log", os.O_APPEND|os.O_CREATE|os.O_WRONLY, 0o644)
-	if err == nil {
-		fmt.Fprintf(f, format+"\n", a...)
-		f.Close()
-	}
 }
 
 func isPushN(op vm.OpCode) bool { return op >= vm.PUSH1 && op <= vm.PUSH32 }
@@ -793,11 +779,7 @@ func (r *runner) mine() bool {
 
 // run executes one case, judges it, re-runs it when an oracle fails and records it.
 func (r *runner) run(k *kase) obs {
-	t0 := time.Now()
 	o := execute(k)
-	if d := time.Since(t0); d > 200*time.Millisecond {
-		dbg("slow case %.2fs: part=%s fork=%s entry=%s gas=%d note=%s kind=%s", d.Seconds(), k.Part, k.Fork, k.Entry, k.Gas, k.Note, o.Kind)
-	}
 	r.n++
 	r.c.Eval(1)
 	cls := o.Kind
@@ -837,16 +819,17 @@ func main() {
 	}
 	fw.Main(fw.Check{
 		ID: "C11", Level: "exploration",
-		Rule: "bounded-exhaustive enumeration on the real interpreter, fresh dev-genesis head state per case: " +
-			"(code) every byte string of length <=2 (quick) / <=3 (thorough) as contract code x gas {0,1,2300,1e5,1e7} x entry {Call, StaticCall} x fork table {all proposals on, pre-P026}; " +
-			"(op) for every operation of the active jump table (PRINTF, STAKE family, AUTH, AUTHCALL, P022 opcodes included) every operand tuple over a 13-value boundary set (<=4 operands) / 5-value set (5-9 operands) on memory {empty, 32 B}, " +
-			"wrapped as GAS MSIZE <args> OP GAS MSIZE so that gas monotonicity and memory-growth charging are read back, with the contract at a plain address and at a genesis validator's account, entries Call and StaticCall, plus AUTH with a valid signature followed by every AUTHCALL tuple; " +
+		Rule: "bounded-exhaustive enumeration on the real interpreter (EVM.Call / StaticCall / Create, RunPrecompiledContract), fresh dev-genesis head state per case, two jump tables A = all proposals on (custom opcodes, P022 opcodes, P026 gas x30) and B = pre-P026: " +
+			"(code) every byte string of length <=2 as contract code x gas {0,1,2300,1e5,1e7} x {Call, StaticCall} x {A,B}; thorough adds every 3-byte code x gas {2300,1e7} x {A,B}; " +
+			"(op) for every operation of the jump table (PRINTF, STAKE family, AUTH, AUTHCALL, P022 opcodes included) every operand tuple over a 13-value boundary set (<=4 operands) or a 5-value set (5-9 operands; DUP/SWAP and un-authorized AUTHCALL 2-3 values), " +
+			"program = [MSTORE 32 B] GAS MSIZE <args> OP GAS MSIZE + epilogue returning the readings, contract at a plain address and (STAKE family) at a genesis validator's account; variants quick: A x {Call/empty, Call/32B} for all, + A x StaticCall/32B and B x Call/32B for operations with <=4 operands, thorough: {A,B} x {Call,StaticCall} x {empty,32B}; " +
+			"plus AUTH with a valid signature followed by every AUTHCALL tuple (3 values quick, 5 values thorough); " +
 			"(stack) for every operation with net stack growth the two stack heights around the 1024 limit, and 1023/1024/1025 pushes; " +
-			"(depth) self-recursive CALL/CALLCODE/DELEGATECALL/STATICCALL/AUTHCALL/CREATE/CREATE2 with gas that reaches beyond depth 1024; " +
-			"(create) every init code of length <=2 through Create, CREATE and CREATE2, and code-deposit programs for every gas limit in a dense range; " +
-			"(pre) every precompile x every input of length <=2 x gas set, plus length-field / rounds / size boundary inputs under small gas, directly and through CALL; " +
-			"(gasfn) memorySize+dynamicGas of every memory-touching operation evaluated without allocating, over boundary tuples up to 2^256-1 and a 2^25-byte grid of offsets/lengths up to 2^37 with bisection at every decrease. " +
-			"Cases are distinct by construction (program bytes x gas x entry x fork); non-trivial = non-empty code or input.",
+			"(depth) self-recursive CALL/CALLCODE/DELEGATECALL/STATICCALL/AUTHCALL/CREATE/CREATE2 x gas {1e7,9e8,1e14,1e16} x {Call,StaticCall}, depth read back from return data / log count; " +
+			"(create) every init code of length <=2 through Create (gas set), CREATE and CREATE2 (sandwich), code-deposit programs for every gas limit in a dense range through Create and through CREATE with an endowment; " +
+			"(pre) each of the 18 precompiles x every input of length <=2 x gas set, modexp length-field triples over a 15-value set x 5 payloads, blake2f rounds/flag/length, 33 boundary lengths x 3 fillings, and CALL/STATICCALL/DELEGATECALL to each precompile with boundary in/out sizes; " +
+			"(gasfn) memorySize+dynamicGas of every memory-touching operation evaluated through a hook without allocating: every (offset,length) pair over a 17-value set up to 2^256-1 x other operands {0,1,max} x memory {0,32B}, and a 2^25-byte grid of offsets/lengths up to 2^37 with bisection at every decrease, the cheapest huge growth found is executed in a sandboxed child process. " +
+			"Cases are distinct by construction (program bytes x gas x entry x table); non-trivial = non-empty code or input.",
 		Assumptions: []string{
 			"the accept-all consensus stub and the dev genesis state are an adequate environment for EVM execution",
 			"the harness assembler and the sandwich epilogue (MSTORE/RETURN of the readings) behave as specified; a reading is only used when the call succeeded and returned exactly 160 bytes",
@@ -856,9 +839,9 @@ func main() {
 		Run: run, Replay: replay,
 		Budget: func(t string) time.Duration {
 			if t == "thorough" {
-				return 17 * time.Minute
+				return 16 * time.Minute
 			}
-			return 70 * time.Second
+			return 60 * time.Second
 		},
 	})
 }
@@ -896,11 +879,6 @@ func replay(c *fw.Ctx, raw json.RawMessage) {
 
 func run(c *fw.Ctx) {
 	setup()
-	if pf := os.Getenv("C11_PROF"); pf != "" && c.Shard == 0 {
-		f, _ := os.Create(pf)
-		pprof.StartCPUProfile(f)
-		defer pprof.StopCPUProfile()
-	}
 	r := &runner{c: c, parts: map[string]bool{}}
 	for _, p := range strings.Split(os.Getenv("C11_PARTS"), ",") {
 		if p != "" {
@@ -1038,77 +1016,107 @@ func argsNote(name string, args []*big.Int, mem32 bool) string {
 	return sb.String()
 }
 
+var p022Ops = map[vm.OpCode]bool{vm.BASEFEE: true, vm.BLOBHASH: true, vm.BLOBBASEFEE: true, vm.TLOAD: true, vm.TSTORE: true, vm.MCOPY: true, vm.PUSH0: true}
+
 var movesValue = map[vm.OpCode]bool{vm.CALL: true, vm.CALLCODE: true, vm.CREATE: true, vm.CREATE2: true, vm.SELFDESTRUCT: true,
 	vm.AUTHCALL: true, vm.STAKE: true, vm.UNSTAKE: true, vm.UNSTAKEALL: true, vm.BALANCE: true, vm.SELFBALANCE: true}
 
 func (r *runner) partOps() {
 	stakeFamily := map[vm.OpCode]bool{vm.STAKE: true, vm.UNSTAKE: true, vm.GETSTAKE: true, vm.UNSTAKEALL: true, vm.STAKENUM: true}
 	for _, f := range []string{forkA, forkB} {
-		for _, oi := range tables[f] {
-			if r.stop {
-				return
+		r.authorizedAuthCall(f)
+	}
+	for _, phase := range []string{"le4", "gt4"} {
+		for _, f := range []string{forkA, forkB} {
+			// the repository's own operations first, then by ascending operand count, so that a time cap
+			// cuts the large CALL-family products last
+			order := append([]vm.VerifOpInfo(nil), tables[f]...)
+			rank := func(oi vm.VerifOpInfo) int {
+				if _, ok := customNames[oi.Op]; ok || p022Ops[oi.Op] {
+					return 0
+				}
+				return 1
 			}
-			var set []*big.Int
-			switch {
-			case oi.Pops <= 4:
-				set = bset13()
-			case oi.Pops <= 9 && isDupSwap(oi.Op): // value-agnostic
-				set = bset2()
-				if r.c.Thorough() {
+			sort.SliceStable(order, func(i, j int) bool {
+				if rank(order[i]) != rank(order[j]) {
+					return rank(order[i]) < rank(order[j])
+				}
+				if order[i].Pops != order[j].Pops {
+					return order[i].Pops < order[j].Pops
+				}
+				return order[i].Op < order[j].Op
+			})
+			for _, oi := range order {
+				if r.stop {
+					return
+				}
+				if (oi.Pops <= 4) != (phase == "le4") {
+					continue
+				}
+				var set []*big.Int
+				switch {
+				case oi.Pops <= 4:
+					set = bset13()
+				case oi.Pops <= 9 && isDupSwap(oi.Op): // value-agnostic
+					set = bset2()
+					if r.c.Thorough() {
+						set = bset3()
+					}
+				case oi.Pops <= 9 && oi.Op == vm.AUTHCALL:
+					// without a preceding AUTH the operation stops right after the gas computation; the
+					// 5-value product is spent on the authorized variant below (authorizedAuthCall)
 					set = bset3()
+				case oi.Pops <= 9:
+					set = bset5()
+				default: // DUP10.. / SWAP9..: value-agnostic, one tuple of distinct values
+					set = nil
 				}
-			case oi.Pops <= 9 && oi.Op == vm.AUTHCALL:
-				// without a preceding AUTH the operation stops right after the gas computation; the
-				// 5-value product is spent on the authorized variant below (authorizedAuthCall)
-				set = bset3()
-			case oi.Pops <= 9:
-				set = bset5()
-			default: // DUP10.. / SWAP9..: value-agnostic, one tuple of distinct values
-				set = nil
-			}
-			selfs := []string{""}
-			if stakeFamily[oi.Op] {
-				selfs = []string{"", "miner"}
-			}
-			entries := []string{"call", "static"}
-			emit := func(args []*big.Int) bool {
-				if !r.mine() { // one operand tuple (all its memory/address/entry variants) = one unit of sharding
-					return !r.stop
+				selfs := []string{""}
+				if stakeFamily[oi.Op] {
+					selfs = []string{"", "miner"}
 				}
-				for _, mem32 := range []bool{false, true} {
-					for _, self := range selfs {
-						for _, e := range entries {
-							if !r.c.Thorough() {
-								// quick: all-on table with (Call, empty), (Call, 32 B), (StaticCall, 32 B); pre-P026 table with (Call, 32 B)
-								if (f == forkB && (e != "call" || !mem32)) || (e == "static" && !mem32) {
-									continue
+				entries := []string{"call", "static"}
+				emit := func(args []*big.Int) bool {
+					if !r.mine() { // one operand tuple (all its memory/address/entry variants) = one unit of sharding
+						return !r.stop
+					}
+					for _, mem32 := range []bool{false, true} {
+						for _, self := range selfs {
+							for _, e := range entries {
+								if !r.c.Thorough() {
+									// quick: all-on table with (Call, empty), (Call, 32 B), (StaticCall, 32 B); pre-P026 table with (Call, 32 B)
+									if (f == forkB && (e != "call" || !mem32)) || (e == "static" && !mem32) {
+										continue
+									}
+									if oi.Pops > 4 && (f == forkB || e == "static") { // 5-9 operands: all-on table, Call only
+										continue
+									}
 								}
+								if r.c.Expired() {
+									r.stop = true
+									return false
+								}
+								code := sandwich(oi, args, mem32, nil)
+								k := &kase{Part: "op", Fork: f, Entry: e, Self: self, Bal: movesValue[oi.Op], Code: hx(code), Gas: 10000000,
+									Expect: "sandwich", Op: int(oi.Op), NArgs: len(args), Note: argsNote(oi.Name, args, mem32)}
+								r.run(k)
+								r.nontriv++
 							}
-							if r.c.Expired() {
-								r.stop = true
-								return false
-							}
-							code := sandwich(oi, args, mem32, nil)
-							k := &kase{Part: "op", Fork: f, Entry: e, Self: self, Bal: movesValue[oi.Op], Code: hx(code), Gas: 10000000,
-								Expect: "sandwich", Op: int(oi.Op), NArgs: len(args), Note: argsNote(oi.Name, args, mem32)}
-							r.run(k)
-							r.nontriv++
 						}
 					}
+					return true
 				}
-				return true
-			}
-			if set == nil {
-				args := make([]*big.Int, oi.Pops)
-				for i := range args {
-					args[i] = big.NewInt(int64(i + 1))
+				if set == nil {
+					args := make([]*big.Int, oi.Pops)
+					for i := range args {
+						args[i] = big.NewInt(int64(i + 1))
+					}
+					emit(args)
+					continue
 				}
-				emit(args)
-				continue
+				tuples(set, oi.Pops, func(a []*big.Int) bool { return emit(append([]*big.Int(nil), a...)) })
 			}
-			tuples(set, oi.Pops, func(a []*big.Int) bool { return emit(append([]*big.Int(nil), a...)) })
 		}
-		r.authorizedAuthCall(f)
 	}
 	oi := opInfo[forkA][vm.AUTH]
 	r.sample(kase{Part: "op", Fork: forkA, Entry: "call", Gas: 10000000, Expect: "sandwich", Op: int(vm.AUTH), NArgs: 3,
@@ -1295,9 +1303,9 @@ func (r *runner) partDepth() {
 					if o.Kind == "" && len(o.Ret) == 32 {
 						d, _ := u64At(o.Ret, 0)
 						r.c.Outcome(fmt.Sprintf("depth/%s/%s gas=%d reached=%d", nameOf(op), e, g, d))
-						dbg("depth fork=%s %s/%s gas=%d reached=%d gasleft=%d", f, nameOf(op), e, g, d, o.GasLeft)
-					} else {
-						dbg("depth fork=%s %s/%s gas=%d kind=%s retlen=%d", f, nameOf(op), e, g, o.Kind, len(o.Ret))
+						if d == 1024 {
+							r.c.Note("depth_1024_reached_and_not_exceeded_by_"+nameOf(op), true)
+						}
 					}
 				}
 			}
@@ -1311,7 +1319,9 @@ func (r *runner) partDepth() {
 					Expect: "depth-logs", Op: int(op), Note: nameOf(op)})
 				r.nontriv++
 				r.c.Outcome(fmt.Sprintf("depth/%s gas=%d frames=%d", op, g, o.NLogs))
-				dbg("depth fork=%s %s gas=%d frames=%d kind=%s gasleft=%d", f, op, g, o.NLogs, o.Kind, o.GasLeft)
+				if o.NLogs == 1025 {
+					r.c.Note("depth_1024_reached_and_not_exceeded_by_"+nameOf(op), true)
+				}
 			}
 		}
 	}
@@ -1752,9 +1762,17 @@ func (r *runner) tune(f string, oi vm.VerifOpInfo, pp pairPos, off uint64) {
 		return
 	}
 	r.c.Outcome("gasfn/cheap-huge-growth:" + oi.Name)
-	dbg("tune fork=%s %s: stack %v dyngas=%d memsize=%d", f, oi.Name, best.Stack, bo.DynGas, bo.MemSize)
 	if oi.Op == vm.CREATE2 || oi.Op == vm.SHA3 || oi.Halts || oi.Reverts {
 		return // confirmation by execution only for operations that merely copy/log
+	}
+	for _, other := range tables[f] { // ... and only for the first operation of each dynamic-gas function
+		if other.Op < oi.Op && gasFnName(other) == gasFnName(oi) {
+			return
+		}
+	}
+	if r.c.Expired() {
+		r.stop = true
+		return
 	}
 	bk := *best
 	bk.Entry, bk.Part, bk.MemLen = "bomb", "gasfn", bo.MemSize
@@ -1780,7 +1798,6 @@ func (r *runner) bomb(k *kase) {
 	ck := &kase{Part: "gasfn", Fork: k.Fork, Entry: "call", Code: hx(p.Bytes()), Gas: 1000000, Note: k.Note}
 	o, fatal, err := runChild(r.c, ck)
 	r.c.Eval(1)
-	dbg("bomb %s code=%s -> obs=%+v fatal=%q err=%v", k.Note, ck.Code, o, fatal, err)
 	if err != nil {
 		r.c.Note("bomb_child_infra", err.Error())
 		r.c.Outcome("gasfn/bomb:infra")
@@ -1806,7 +1823,3 @@ func (r *runner) bomb(k *kase) {
 		r.c.Violation(fd.sig, fd.part, fd.msg, ck)
 	}
 }
-
-var _ = sort.Strings
-var _ = filepath.Join
-var _ = two
